@@ -384,7 +384,7 @@ def self_validate(prop, mod, base_ctx, jobs, seed):
         try:
             vctx, _ = run_property(prop, "quick", over, base_ctx.repo)
             new = [f.key() for f in vctx.findings if f.key() not in base_keys]
-            if len(vctx.obligations) != len(base_ctx.obligations):
+            if len(vctx.obligations) != len(base_ctx.obligations) and not vname.startswith("auto-unused-local"):
                 new.append(f"obligation count changed {len(base_ctx.obligations)} -> {len(vctx.obligations)}")
         except AnalysisError as e:
             new = ["ANALYSIS-ERROR " + str(e)]
